@@ -94,7 +94,7 @@ package memfs
 //@   let ok := f != nil && f.name != "" && f.nd is *fileNode && size >= 0 && f.openMode&avfs.OpenWrite != 0
 //@   ensures[C02,C07] f == nil ==> r0 == fs.ErrInvalid
 //@   ensures[C02,C07] f != nil && f.name != "" && f.nd == nil ==> closedErr(r0)
-//@   ensures[C02] f != nil && f.name != "" && f.nd is *fileNode && size < 0 ==> pathErr(r0, f.vfs.err.InvalidArgument) && len(f.nd.(*fileNode).data) == len(old(f.nd.(*fileNode).data))
+//@   ensures[C02] f != nil && f.name != "" && f.nd is *fileNode && size < 0 ==> r0 != nil && r0 is *fs.PathError && len(f.nd.(*fileNode).data) == len(old(f.nd.(*fileNode).data))
 //@   ensures[C02] f != nil && f.name != "" && f.nd is *fileNode && size >= 0 && f.openMode&avfs.OpenWrite == 0 ==> r0 != nil && len(f.nd.(*fileNode).data) == len(old(f.nd.(*fileNode).data))
 //@   ensures[C02] ok ==> r0 == nil && len(f.nd.(*fileNode).data) == size && f.at == old(f.at)
 //@   ensures[C02] ok ==> forall i int :: 0 <= i && i < size && i < len(old(f.nd.(*fileNode).data)) ==> f.nd.(*fileNode).data[i] == old(f.nd.(*fileNode).data[i])
